@@ -40,8 +40,17 @@ fn wire_of(a: &Avalanche) -> usize {
     ((shifted + 8).rem_euclid(256)) as usize
 }
 
+/// An avalanche "on wire w" carries the azimuth of that wire: the library's own `TpcWirePosition::phi()`, bit for bit
+/// (an azimuth that differs from it by a multiple of 2 pi, or by rounding, is not the rotated wire's azimuth).
+/// Wire index 1000 + w marks an avalanche whose azimuth is not its wire's.
+fn wire_checked(a: &Avalanche) -> usize {
+    let w = wire_of(a);
+    let want = alpha_g_detector::alpha16::aw_map::TpcWirePosition::try_from(w).map(|p| p.phi());
+    if want.ok().map(|x| x.to_bits()) == Some(a.phi.get::<radian>().to_bits()) { w } else { 1000 + w }
+}
+
 fn keys(ev: &MainEvent) -> Result<Vec<Key>, String> {
-    guard(|| ev.avalanches().iter().map(|a| (a.t.get::<second>().to_bits(), wire_of(a), a.z.get::<meter>(), a.wire_amplitude.to_bits(), a.pad_amplitude.to_bits())).collect())
+    guard(|| ev.avalanches().iter().map(|a| (a.t.get::<second>().to_bits(), wire_checked(a), a.z.get::<meter>(), a.wire_amplitude.to_bits(), a.pad_amplitude.to_bits())).collect())
 }
 
 fn sort_keys(v: &mut [Key]) {
@@ -78,6 +87,9 @@ fn check_pattern(sig: &Signals, rotations: &[usize], do_mirror: bool, what: serd
             return;
         }
     };
+    if let Some(bad) = base.iter().find(|a| a.1 >= 1000) {
+        loc.violation("c13:avalanche-azimuth-is-not-its-wire-azimuth", json!({"case": what, "wire": bad.1 - 1000}));
+    }
     let full_ring = sig.wires.len() == 256;
     loc.note(h, !base.is_empty(), if base.is_empty() { "no-avalanches" } else { "avalanches" });
     loc.count("avalanches_in_base_patterns", base.len() as u64);
